@@ -79,8 +79,27 @@ def check(rep, tier):
     rep.trusted = ["Coq 8.16.1 kernel; Interval tactic (vm_compute inside)", "harness/oracle_sim.py restatement of the model and of k_v (np.random.seed(seed_v); rand; norm.ppf)",
                    "distributional claim (xi standard normal, dice uniform) NOT modelled: numpy/scipy streams are trusted"]
     certs = []
-    for ri in range(nruns):
-        cfg = fr.gen_config(rng, max_vials=24 if tier == "quick" else 80, max_steps=600, cn=(ri % 3 == 1))
+    # corpus: vial seeds for which one vial's xi_v lies far in a tail of the standard normal (|xi| > 3.3): k_v is fixed by the seed, whatever it is
+    def tail_seed(N, start):
+        st = np.random.get_state()
+        try:
+            for sv in range(start, start + 4000):
+                np.random.seed(sv); u = np.random.rand(N)
+                if u.min() < 5e-4 or u.max() > 1 - 5e-4:
+                    return sv
+        finally:
+            np.random.set_state(st)
+        return start
+    tails = []
+    for ti in range(2 if tier == "quick" else 6):
+        cfgT = fr.gen_config(rng, max_vials=36, max_steps=400)
+        cfgT["over"] = dict(cfgT["over"]); cfgT["over"].pop("kinetics", None); cfgT["over"]["kinetics"] = {"c": 1.0}
+        cfgT["seed_v"] = tail_seed(cfgT["shape"][0] * cfgT["shape"][1] * cfgT["shape"][2], 1000 * (ti + 1))
+        tails.append(cfgT)
+    for ri in range(nruns + len(tails)):
+        cfg = tails[ri - nruns] if ri >= nruns else fr.gen_config(rng, max_vials=24 if tier == "quick" else 80, max_steps=600, cn=(ri % 3 == 1))
+        if ri >= nruns:
+            rep.count("tail-xi corpus")
         try:
             S, L = lockstep_run(rep, cfg, rng)
         except Exception as e:
